@@ -163,7 +163,7 @@ inline void run_docsig(long &kc) {
 					if (write_file(base + ".sig", a.pkt) && write_file(base + ".dat", data))
 						record(J().kv("k", "gpgverify").kv("dir", g_cwd).kv("sig", base + ".sig").kv("data", base + ".dat").kv("keyfile", kf).kv("key", c.key).kv("pkalgo", pkname(K->algo))
 							.kv("hash", hashname(c.hash)).kv("type", c.type ? "text" : "binary").kv("form", c.type ? text_form_name(form) : "").kv("judge", c.type == 0 || text_form_unambiguous(form))
-							.kv("time", (long long)(sigtime + 100)).str());
+							.kv("time", (long long)(sigtime + 100)).kv("min_hash_bits", (long long)gpg_min_hash_bits(*K)).kv("hash_bits", (long long)(8 * PGP::AlgorithmHashLength((tmcg_openpgp_hashalgo_t)c.hash))).str());
 				}
 			}
 		}
